@@ -492,6 +492,9 @@ class NumpyModel:
                 out_dims += 1
             else:
                 conds.append(("fix", self.norm_index(st, k, n, node, "array store")))
+        if isinstance(val, Arr) and val.rank == out_dims + 1 and isinstance(val.shape[0], int) and val.shape[0] == 1:
+            v0 = val          # numpy broadcasting: a leading axis of length 1 is dropped (row store of a (1, q) array)
+            val = Arr(tuple(v0.shape[1:]), (lambda *j, v0=v0: v0.get(0, *j)), v0.kind)
         if isinstance(val, Arr):
             if val.rank > out_dims:
                 raise Unsupported("store value of too high rank")
